@@ -113,6 +113,8 @@ def _pq_op(bulk_sizes):
         # mass removal / re-prioritising of the bulk tasks (every 2nd, 2 of 3, ...): most of the back end becomes dead entries
         st.tuples(st.just('bulk_remove'), st.sampled_from([2, 3, 4]), st.integers(0, 3), st.booleans()),
         st.tuples(st.just('bulk_readd'), st.sampled_from([2, 3]), st.integers(0, 2), _p),
+        # the k best live tasks are removed (not popped): a run of dead entries at the very head of the back end
+        st.tuples(st.just('remove_head'), st.sampled_from([2, 5, 40, 1200, 2500])),
     ).map(list)
 
 
@@ -129,7 +131,8 @@ def strat_scale(tier):
     return st.fixed_dictionaries({
         'sub': st.just('scale'),
         'first': st.tuples(st.integers(23000, 42000 if tier == 'quick' else 60000), _pattern, st.lists(_p, min_size=1, max_size=5)).map(list),
-        'ops': st.lists(_pq_op(st.integers(1, 300)), max_size=40),
+        'ops': st.tuples(st.sampled_from([[], [['remove_head', 1200], ['pop', False]], [['remove_head', 2500], ['pop', True], ['peek', False]]]),
+                         st.lists(_pq_op(st.integers(1, 300)), max_size=40)).map(lambda t: t[0] + t[1]),
         'drain': st.sampled_from([0, 0, 0, 500, 3000]),     # 0 = drain completely
     })
 
@@ -257,6 +260,15 @@ def _run_history(case, out, factor, first=None, drain_limit=None):
             elif name == 'bulk':
                 if not do_bulk(op[1], op[2], op[3]):
                     return None
+            elif name == 'remove_head':
+                for task in ref.order()[:op[1]]:
+                    for nm, q in qs:
+                        r = _call(q.remove, task)
+                        if r != ('ok', None):
+                            fail('remove', '%s: %s.remove(%r) -> %r' % (where, nm, task, r))
+                            return None
+                    ref.remove(task)
+                readd[0] = True
             elif name in ('bulk_remove', 'bulk_readd'):
                 mod, rem = op[1], op[2] % op[1]
                 victims = [t for t in list(ref.live) if isinstance(t, str) and t[:1] == 'b' and t[1:].isdigit() and
